@@ -99,44 +99,60 @@ def run(ctx, rep):
             tree = eng.call_entry(panalysis.entry, args, asm={('discr', ('field', P, 'extreme_latitude_method')): disc})
             for st in E.leaves_of(tree):
                 n_paths += 1
-                dirs = []
+                # a candidate chosen by a condition (`if c { jd.sub(i) } else { jd.add(i) }`) is judged once per case of the condition
+                jds = []
                 for k, p in st.trace:
-                    if k != 'call':
-                        continue
-                    d = dict(p)
-                    jd = [x for x in d['args'] if isinstance(x, tuple) and x and x[0] == 'enum' and last_seg(x[1]) != 'Coordinates']
-                    co = [x for x in d['args'] if not (isinstance(x, tuple) and x and x[0] == 'enum' and last_seg(x[1]) != 'Coordinates')]
-                    if not jd:
-                        dirs.append(('?', None))
-                        continue
-                    j = jd[0]
-                    # direction: the f64 field decreases / increases; the date moves with Sub / Add
-                    fl = [x for x in j[4] if isinstance(x, tuple) and x and x[0] == 'bin' and x[1] in ('Sub', 'Add')]
-                    dt = [x for x in j[4] if isinstance(x, tuple) and x and x[0] == 'app' and ('Sub<chrono::Days>' in x[1] or 'Add<chrono::Days>' in x[1])]
-                    if not fl or not dt:
-                        dirs.append(('?', None))
-                        continue
-                    dist = [y for y in subterms(fl[0][3]) if y and y[0] == 'iterval']
-                    dirs.append(('B' if fl[0][1] == 'Sub' else 'F', dist[0] if dist else fl[0][3]))
-                    okc = all(eng.purify(st, c) == ('field', ('param', 'tad'), 'coords') for c in co)
-                    rep.ob('R9.3', f'{pol}:candidate-coordinates', okc, 'candidates are computed at the request\'s coordinates' if okc else
-                           f'candidate coordinates: {[show(eng.purify(st, c), maxd=3)[:60] for c in co]}')
-                    same_dir = ('Sub<' in dt[0][1]) == (fl[0][1] == 'Sub')
-                    rep.ob('R9.4', f'{pol}:date-and-julian-day-move-together', same_dir,
-                           'date and Julian Day value are stepped in the same direction' if same_dir else
-                           f'date moves by {dt[0][1][-30:]} but the Julian Day value by {fl[0][1]}')
-                # pattern: every forward probe is immediately preceded by the backward probe of the same distance
-                ok = True
-                for i, (d, dist) in enumerate(dirs):
-                    if d == 'F' and not (i > 0 and dirs[i - 1][0] == 'B' and dirs[i - 1][1] == dist):
-                        ok = False
-                    if d == '?':
-                        ok = None
-                n_probes += sum(1 for d, _ in dirs if d in 'BF')
-                if dirs:
-                    rep.ob('R9.2', f'{pol}:earlier-date-first', ok,
-                           'at every distance the earlier date is probed before the later one' if ok else
-                           f'probe order on a path: {"".join(d for d, _ in dirs)} (the earlier date must be probed first: ties go to the earlier date)')
+                    if k == 'call':
+                        d = dict(p)
+                        jds += [x for x in d['args'] if isinstance(x, tuple) and x and x[0] == 'enum' and last_seg(x[1]) != 'Coordinates'][:1]
+                cconds = []
+                for j in jds:
+                    D.ite_conds(j, cconds)
+                cases = [{}]
+                if 0 < len(cconds) <= 4:
+                    import itertools as _it
+                    cases = [dict(zip(cconds, bits)) for bits in _it.product([True, False], repeat=len(cconds))]
+                for case in cases:
+                    dirs = []
+                    for k, p in st.trace:
+                        if k != 'call':
+                            continue
+                        d = dict(p)
+                        jd = [x for x in d['args'] if isinstance(x, tuple) and x and x[0] == 'enum' and last_seg(x[1]) != 'Coordinates']
+                        co = [x for x in d['args'] if not (isinstance(x, tuple) and x and x[0] == 'enum' and last_seg(x[1]) != 'Coordinates')]
+                        if not jd:
+                            dirs.append(('?', None))
+                            continue
+                        j = E.specialise(jd[0], case) if case else jd[0]
+                        # direction: the f64 field decreases / increases; the date moves with Sub / Add
+                        fl = [x for x in j[4] if isinstance(x, tuple) and x and x[0] == 'bin' and x[1] in ('Sub', 'Add')]
+                        dt = [x for x in j[4] if isinstance(x, tuple) and x and x[0] == 'app' and ('Sub<chrono::Days>' in x[1] or 'Add<chrono::Days>' in x[1])]
+                        if not fl or not dt:
+                            dirs.append(('?', None))
+                            continue
+                        dist = [y for y in subterms(fl[0][3]) if y and y[0] == 'iterval']
+                        dirs.append(('B' if fl[0][1] == 'Sub' else 'F', dist[0] if dist else fl[0][3]))
+                        okc = all(eng.purify(st, c) == ('field', ('param', 'tad'), 'coords') for c in co)
+                        rep.ob('R9.3', f'{pol}:candidate-coordinates', okc, 'candidates are computed at the request\'s coordinates' if okc else
+                               f'candidate coordinates: {[show(eng.purify(st, c), maxd=3)[:60] for c in co]}')
+                        same_dir = ('Sub<' in dt[0][1]) == (fl[0][1] == 'Sub')
+                        rep.ob('R9.4', f'{pol}:date-and-julian-day-move-together', same_dir,
+                               'date and Julian Day value are stepped in the same direction' if same_dir else
+                               f'date moves by {dt[0][1][-30:]} but the Julian Day value by {fl[0][1]}')
+                    # pattern: every forward probe is immediately preceded by the backward probe of the same distance
+                    ok = True
+                    for i, (d, dist) in enumerate(dirs):
+                        if d == 'F' and not (i > 0 and dirs[i - 1][0] == 'B' and dirs[i - 1][1] == dist):
+                            ok = False
+                        if d == '?':
+                            ok = None
+                    n_probes += sum(1 for d, _ in dirs if d in 'BF')
+                    if dirs:
+                        rep.ob('R9.2', f'{pol}:earlier-date-first', ok,
+                               'at every distance the earlier date is probed before the later one' if ok else
+                               f'probe order on a path: {"".join(d for d, _ in dirs)}' +
+                               (f' when {[(show(c_, maxd=3)[:60], v_) for c_, v_ in case.items()][:2]}' if case else '') +
+                               ' (the earlier date must be probed first: ties go to the earlier date)')
     rep.floor('search paths', n_paths, 4)
     rep.floor('classified probes (earlier / later date)', n_probes, 4)
     # ---- R9.3 / R9.5 on the worlds: accepted candidates have valid Fajr and Isha; writes are the candidate's same-key entries ------
@@ -254,3 +270,7 @@ def run(ctx, rep):
                f'{k} is never taken from a good day although the policy applies (conventional validity: ' +
                ', '.join(f'{a}={"ok" if b else "invalid"}' for a, b in key) + ')')
     rep.floor('worlds with an accepted candidate', n_w, 20)
+    # the search walks the Julian Day by +/- i while the candidate's times are labelled by calendar dates: "i days away" means the
+    # same on both sides only if consecutive dates are one Julian Day apart - the Meeus formula with one shifted year (R9.6)
+    from . import shared, julian as _julian
+    shared.include(ctx, rep, lambda c_, r_: _julian.check(c_, r_, 'R9.6'), {'R9.6'}, why='the day offsets of the search are Julian-Day differences')
